@@ -19,11 +19,17 @@ change it: it re-evaluates the current references.
   3. after a `tick`, if every awaitable of the NEWEST evaluation of `p`'s current reference has
      completed, `p` holds its last result;
   4. after a `tick` with every awaitable of every task completed, `syncing` and `async_refs` are empty;
-  5. `bump` only ever re-evaluates current references; `trigger` of a parameter counts as the plain
+  5. `bump` re-evaluates every current asynchronous reference exactly once when one of them depends on
+     the source, nothing otherwise — and never a superseded reference; `trigger` of a parameter counts as the plain
      assignment of the value it held, the watcher run by `trigger('c')` as its plain assignment;
   6. a value the parameter rejects (`rej`) is never stored; an evaluation ends at its first rejected
      result (for 3.: the value to hold is the last result BEFORE it, if any; for 4.: its later
-     awaitables do not count as pending).
+     awaitables do not count as pending);
+  7. a synchronous reference (`assignSync p y`) counts as the plain assignment of the value it resolves
+     to — except that `p` STAYS linked (and still owns no task); a change of the other source never
+     re-evaluates it (5.: it is not a `.task` reference);
+  8. an `_async_ref` task ends with an exception (other than its cancellation) only when a result was
+     rejected: the exception is a `ValueError`, and there are at most as many as rejected results.
 -/
 import ParamVerif.Async.ModelExt
 import ParamVerif.Async.Spec
@@ -37,6 +43,9 @@ structure ObsH where
   refs : List Nat
   log : List (Nat × Int)
   spawns : List (Nat × Nat × Nat)       -- (task, parameter, reference)
+  /-- class names of the exceptions `_async_ref` tasks ended with during the event (`CancelledError`
+      apart); the model does not produce them, the oracle judges them (8.) -/
+  errs : List String := []
   deriving Repr, DecidableEq
 
 def observeH (np : Nat) (sh : StH) (logFrom tasksFrom : Nat) : ObsH :=
@@ -58,6 +67,9 @@ structure OSt where
   done : List (Fid × Int)               -- completed hand-made futures
   vals : List Int                       -- the values observed after the previous event
   fn : List (Nat × Nat)                 -- parameter ↦ the function object last assigned to it (a reference)
+  synced : List Nat := []               -- parameters whose most recent assignment is a synchronous reference
+  nerr : Nat := 0                       -- tasks that ended with a `ValueError` so far
+  deps : List Nat := []                 -- references whose function depends on the source
 
 def OSt.init : OSt := { lat := [], pend := [], tasks := [], kinds := [], done := [], vals := [], fn := [] }
 
@@ -67,7 +79,7 @@ def OSt.latOf (o : OSt) (p : Nat) : Last :=
   | none => .never
 
 def OSt.setLat (o : OSt) (p : Nat) (l : Last) : OSt :=
-  { o with lat := (p, l) :: o.lat.filter (fun e => e.1 ≠ p) }
+  { o with lat := (p, l) :: o.lat.filter (fun e => e.1 ≠ p), synced := o.synced.filter (· ≠ p) }
 
 def OSt.doneVal (o : OSt) (f : Fid) : Option Int := (o.done.find? (fun e => e.1 = f)).map (·.2)
 
@@ -118,13 +130,14 @@ def checkEventH (np : Nat) (e : Env) (o : OSt) (ev : EventH) (obs : ObsH) : Exce
     | .assign p (.plain v) _ =>
       if obs.spawns != [] then throw "a plain assignment scheduled a task"
       pure { (o.setLat p (.plain v)) with pend := o.pend ++ [(p, v)] }
-    | .assign p src _ =>
+    | .assign p src dep =>
       match obs.spawns with
       | [(t, q, r)] =>
         if q != p || r != t then throw s!"assignment to {p} scheduled task {t} for parameter {q}, reference {r}"
         let k : Kind := match src with | .agen n => .agen n | _ => .coro
         pure { (o.setLat p (.task t)) with kinds := o.kinds ++ [(t, k)], tasks := o.tasks ++ [(t, q, r)],
-                                           fn := (p, t) :: o.fn.filter (fun e => e.1 ≠ p) }
+                                           fn := (p, t) :: o.fn.filter (fun e => e.1 ≠ p),
+                                           deps := if dep then o.deps ++ [t] else o.deps }
       | l => throw s!"an asynchronous assignment scheduled {l.length} tasks"
     | .again p =>
       match o.fn.find? (fun e => e.1 = p), obs.spawns with
@@ -136,7 +149,13 @@ def checkEventH (np : Nat) (e : Env) (o : OSt) (ev : EventH) (obs : ObsH) : Exce
     | .bump =>
       match obs.spawns.find? (fun (_, q, r) => o.latOf q != .task r) with
       | some (t, q, r) => throw s!"task {t} re-evaluates reference {r} of parameter {q}, which is not its current reference"
-      | none => pure { o with tasks := o.tasks ++ obs.spawns }
+      | none =>
+        let cur := (List.range np).filterMap fun p => match o.latOf p with | .task r => some (p, r) | _ => none
+        let want := if cur.any (fun pr => o.deps.contains pr.2) then cur else []
+        let got := obs.spawns.map fun (_, q, r) => (q, r)
+        if !(got.length == want.length && want.all got.contains) then
+          throw s!"the source changed: the current asynchronous references (parameter, reference) {want} have to be re-evaluated once each, re-evaluated: {got}"
+        pure { o with tasks := o.tasks ++ obs.spawns }
     | .tick => if obs.spawns != [] then throw "a task was scheduled during a tick" else pure o
     | .trigC =>
       if obs.spawns != [] then throw "trigger scheduled a task"
@@ -148,6 +167,12 @@ def checkEventH (np : Nat) (e : Env) (o : OSt) (ev : EventH) (obs : ObsH) : Exce
       -- `trigger(p)` re-assigns the value `p` held: a plain assignment of that value
       let v := o.vals[p]?.getD 0
       pure { (o.setLat p (.plain v)) with pend := o.pend ++ [(p, v)] }
+    | .assignSync p y =>
+      if obs.spawns != [] then throw "a synchronous reference scheduled a task"
+      if e.rej y then pure o
+      else
+        let o' := o.setLat p (.plain y)
+        pure { o' with pend := o.pend ++ [(p, y)], synced := p :: o'.synced }
     | .complete t k v =>
       if obs.spawns != [] then throw "a task was scheduled by a completion"
       pure (if (o.doneVal (t, k)).isSome then o else { o with done := o.done ++ [((t, k), v)] })
@@ -160,7 +185,9 @@ def checkEventH (np : Nat) (e : Env) (o : OSt) (ev : EventH) (obs : ObsH) : Exce
     | .never => pure ()
     | .plain w =>
       if obs.vals[p]? != some w then throw s!"parameter {p} holds {obs.vals[p]?.getD 0}, its latest (plain) assignment is {w}"
-      if obs.refs.contains p then throw s!"parameter {p}: the plain assignment left its reference linked (refs)"
+      if o2.synced.contains p then
+        if !obs.refs.contains p then throw s!"parameter {p} lost the link of its synchronous reference (refs)"
+      else if obs.refs.contains p then throw s!"parameter {p}: the plain assignment left its reference linked (refs)"
       if obs.async.contains p then throw s!"parameter {p}: the plain assignment left a task registered (async_refs)"
     | .task r =>
       if !obs.refs.contains p then throw s!"parameter {p} lost the link of its current reference {r} (refs)"
@@ -174,6 +201,12 @@ def checkEventH (np : Nat) (e : Env) (o : OSt) (ev : EventH) (obs : ObsH) : Exce
               throw s!"parameter {p} holds {obs.vals[p]?.getD 0} when quiescent, the last accepted result of the newest evaluation (task {newest}) of its current reference is {w}"
           | _ => pure ()
         | none => pure ()
+  if let some x := obs.errs.find? (· != "ValueError") then
+    throw s!"an _async_ref task ended with {x}"
+  let nerr := o2.nerr + obs.errs.length
+  if nerr > (o2.done.filter fun d => e.rej d.2).length then
+    throw s!"{nerr} tasks ended with ValueError, only {(o2.done.filter fun d => e.rej d.2).length} results were rejected"
+  let o2 := { o2 with nerr := nerr }
   if ev == .tick && o2.tasks.all (fun (t, _, r) => o2.taskDone e.rej t r) then
     if obs.sync != [] then throw s!"syncing = {obs.sync} although every awaitable has completed and the loop is idle"
     if obs.async != [] then throw s!"async_refs still has {obs.async} although every awaitable has completed"
